@@ -120,8 +120,15 @@ class Session:
             bind0 = dict(rec["bind"])
             val = None
             text = None
+            second = False
             try:
-                if k == "new_pandas":
+                if k == "new_pandas" and op.get("same_value") and self.live_vids(rec):
+                    # a second spec for a value that already has one: refused (or the two must stay consistent)
+                    vid0 = sorted(self.live_vids(rec))[0]
+                    val = None
+                    cont.new_pandas(op["name"], path, rec["values"][vid0], file_type="csv")
+                    second = True
+                elif k == "new_pandas":
                     val = self.frame()
                     vid = self.nv
                     cont.new_pandas(op["name"], path, val, file_type="csv")
@@ -133,6 +140,8 @@ class Session:
             except Exception as e:
                 ok = False
                 self.events.append("rejected %s" % type(e).__name__)
+            if second:
+                raise Violation("C18/second-spec-for-one-value-accepted", {"op": op})
             if ok and op["name"] not in cont.refs:
                 raise Violation("C18/creation-accepted-without-a-reference", {"op": op, "is_cells": self.cells_visible(rec, op["where"], op["name"])})
             if ok:
@@ -205,6 +214,17 @@ class Session:
                     new = self.frame()
                     nid = self.nv
                     text = None
+                    if op.get("bind_first"):
+                        # the new value is already held by another (plain) reference of the model when it takes over the spec
+                        holder = "keep%d" % (nid % 3)
+                        if holder not in m.refs:
+                            setattr(m, holder, new)
+                            rec["bind"][("", holder)] = nid
+                            rec["values"][nid] = new
+                            rec["paths"][nid] = rec["paths"].get(vid)
+                            rec["kind"][nid] = rec["kind"][vid]
+                            rec["text"][nid] = None
+                            rec["prebound"] = nid
                     m.update_pandas(rec["values"][vid], new)
                 else:
                     srcp, text = self.module_source()
@@ -217,7 +237,12 @@ class Session:
                             break
             except Exception as e:
                 self.events.append("update rejected %s" % type(e).__name__)
+                if rec.pop("prebound", None) is not None:
+                    # the holder stays a plain binding without a spec: not one of the spec'd values
+                    rec["bind"].pop(("", "keep%d" % (nid % 3)), None)
+                    rec["plain"][("", "keep%d" % (nid % 3))] = None
                 return
+            rec.pop("prebound", None)
             rec["values"][nid] = new
             rec["paths"][nid] = rec["paths"].get(vid)
             rec["kind"][nid] = rec["kind"][vid]
@@ -429,7 +454,7 @@ class Session:
                 path = "ABS:%s.csv" % rng.choice(["a1", "a2"])
             if self.cfg.get("modules") and rng.random() < 0.35:
                 return {"op": "new_module", "mi": mi, "where": where, "name": name, "path": "mods/%s.py" % rng.choice(["m1", "m2"])}
-            return {"op": "new_pandas", "mi": mi, "where": where, "name": name, "path": path}
+            return {"op": "new_pandas", "mi": mi, "where": where, "name": name, "path": path, "same_value": rng.random() < 0.12}
         if r < 0.5:
             return {"op": "assign", "mi": mi, "where": where, "name": name, "src_where": rng.choice(pool), "src": rng.choice(NAMES)}
         if r < 0.6:
@@ -437,7 +462,7 @@ class Session:
         if r < 0.8:
             return {"op": "del", "mi": mi, "where": where, "name": name}
         if r < 0.9:
-            return {"op": "update", "mi": mi, "i": rng.randrange(10)}
+            return {"op": "update", "mi": mi, "i": rng.randrange(10), "bind_first": rng.random() < 0.3}
         if r < 0.9 + self.cfg["p_save"]:
             return {"op": "save", "mi": mi}
         if r < 0.98:
